@@ -25,11 +25,11 @@ ASSUMPTIONS = ["floats modelled as reals", "masses, epsilon, sigma, r_c > 0; sym
                "with shift off are outside (U discontinuous)"]
 
 
-def pair_energy(model, r, eps, sig, rc, shift, n=None, alpha=None, s1rc=None):
+def pair_energy(model, r, eps, sig, rc, shift, n=None, alpha=None, s1rc=None, A=1):
     if model == "lj":
         s = 4 * eps * ((sig / r) ** 12 - (sig / r) ** 6)
     elif model == "ipl":
-        s = eps * (sig / r) ** n
+        s = A * eps * (sig / r) ** n
     else:
         s = eps / alpha * (1 - r / sig) ** alpha
     if shift and s1rc is not None:
@@ -37,7 +37,7 @@ def pair_energy(model, r, eps, sig, rc, shift, n=None, alpha=None, s1rc=None):
     return s
 
 
-def h_hessian(ctx, d, N, types, model, shift, cell, ppp, n=None, alpha=None, mass_order="asc"):
+def h_hessian(ctx, d, N, types, model, shift, cell, ppp, n=None, alpha=None, mass_order="asc", A=None):
     ctx.covers(*FUNCS)
     hs = ctx.repo("PyMatterSim.static.hessians")
     ru = ctx.repo("PyMatterSim.reader.reader_utils")
@@ -60,9 +60,15 @@ def h_hessian(ctx, d, N, types, model, shift, cell, ppp, n=None, alpha=None, mas
         nn = Fraction(n) if sym else float(n)
     if model == "hh":
         aa = Fraction(alpha) if sym else float(Fraction(alpha))
+    # inverse power law prefactor: 1 unless the configuration asks for a symbolic A > 0
+    Aval = (1.0 if not sym else 1)
+    if A == "sym":
+        Aval = ctx.real("A", positive=True)
+        if not sym and not Aval > 0:
+            Aval = 2.5
     params = hs.InteractionParams(
         model_name={"lj": hs.ModelName.lennard_jones, "ipl": hs.ModelName.inverse_power_law, "hh": hs.ModelName.harmonic_hertz}[model],
-        ipl_n=nn if nn is not None else 0, ipl_A=1.0 if not sym else 1, harmonic_hertz_alpha=aa if aa is not None else 0)
+        ipl_n=nn if nn is not None else 0, ipl_A=Aval, harmonic_hertz_alpha=aa if aa is not None else 0)
     # minimum-image pair vectors and distances (reference side)
     def rvec(i, j):
         return C.min_image(ctx, [pos[i][a] - pos[j][a] for a in range(d)], rows, ppp)
@@ -135,11 +141,11 @@ def h_hessian(ctx, d, N, types, model, shift, cell, ppp, n=None, alpha=None, mas
             s1rc = None
             if shift and model != "hh":
                 rsym = ctx.real(f"rr{i}{j}", positive=True)
-                s_of_r = pair_energy(model, rsym, eps[ti][tj], sig[ti][tj], rcv, False, nn, aa)
+                s_of_r = pair_energy(model, rsym, eps[ti][tj], sig[ti][tj], rcv, False, nn, aa, A=Aval)
                 s1 = D.diff(s_of_r, rsym)
                 from symx import scalar as S_
                 s1rc = S_.subst(s1, {D._atom_idx(rsym): rcv})
-            U = U + pair_energy(model, r, eps[ti][tj], sig[ti][tj], rcv, shift, nn, aa, s1rc)
+            U = U + pair_energy(model, r, eps[ti][tj], sig[ti][tj], rcv, shift, nn, aa, s1rc, A=Aval)
         coords = [pos[i][a] for i in range(N) for a in range(d)]
         grad = [D.diff(U, x) if not isinstance(U, int) else 0 for x in coords]
         Href = [[(D.diff(g, y) if not isinstance(g, int) else 0) for y in coords] for g in grad]
@@ -167,8 +173,8 @@ def h_hessian(ctx, d, N, types, model, shift, cell, ppp, n=None, alpha=None, mas
                 e_, s_, rc_ = mp.mpf(eps[ti][tj]), mp.mpf(sig[ti][tj]), mp.mpf(rcs[ti][tj])
                 s1rc = None
                 if shift and model != "hh":
-                    s1rc = mp.diff(lambda x: pair_energy(model, x, e_, s_, rc_, False, nn, aa), rc_)
-                tot += pair_energy(model, r, e_, s_, rc_, shift, nn, aa, s1rc)
+                    s1rc = mp.diff(lambda x: pair_energy(model, x, e_, s_, rc_, False, nn, aa, A=mp.mpf(float(Aval))), rc_)
+                tot += pair_energy(model, r, e_, s_, rc_, shift, nn, aa, s1rc, A=mp.mpf(float(Aval)))
             return tot
         x0 = [mp.mpf(pos[i][a]) for i in range(N) for a in range(d)]
         Href = [[None] * nd for _ in range(nd)]
@@ -243,6 +249,7 @@ def cfg(tier, seed):
     out.append(dict(d=2, N=2, types=[1, 1], cell="t-", ppp=[1, 1], model="ipl", shift=False, n=12))
     out.append(dict(d=2, N=2, types=[2, 1], cell="o", ppp=[1, 0], model="lj", shift=True))          # mixed periodicity mask
     out.append(dict(d=2, N=2, types=[1, 2], cell="o", ppp=[0, 0], model="ipl", shift=True, n=6, mass_order="desc"))
+    out.append(dict(d=2, N=2, types=[2, 1], cell="o", ppp=[0, 0], model="ipl", shift=True, n=12, A="sym"))      # prefactor A != 1
     if tier == "thorough":
         for model, kw in (("lj", {}), ("ipl", dict(n=12)), ("hh", dict(alpha="2"))):
             out.append(dict(d=2, N=3, types=[1, 2, 1], cell="o", ppp=[0, 0], model=model, shift=True, **kw))
